@@ -34,6 +34,9 @@ def main():
             ck.e2('%s-%s-1x2' % (e, f), h_laws.make_pipeline(dict(
                 entry=e, first=f, nl=1, nr=2, k=2, kmin=1, thresholds=thr if e == 'overlap_join' else [0.5, 0.67],
                 comp_ops=['>='], n_jobs=[1])))
+    for e in ('jaccard_join', 'cosine_join', 'dice_join'):
+        ck.e2('%s-PositionFilter-1x1-k4' % e, h_laws.make_pipeline(dict(
+            entry=e, first='PositionFilter', nl=1, nr=1, k=4, kmin=1, thresholds=[0.5, 0.67], comp_ops=['>='])))
     # edit distance: the join's result is contained in the pipeline's and they agree on pairs sharing a q-gram
     from harness import h_ed
     ck.e2('ed-pipeline', h_ed.make_rel(dict(law='pipeline', nl=1, nr=1, lens=[1, 2] if quick else [0, 1, 2],
